@@ -614,7 +614,7 @@ func c04E2E(r *vReport, expr string) {
 // ---------------------------------------------------------------------------------------------
 
 var c04Tokens = []string{"Ab", "true", "null", "'s'", "1", "1.5", "(", ")", "[", "]", ".", "!", "<", "<=", ">", ">=", "==", "!=", "&&", "||", "*", ","}
-var c04Chars = []byte("aex019.-+_'\" ()[]!<>=&|*,}")
+var c04Chars = []byte("aex019.-+_'\" ()[]!<>=&|*,}\\")
 var c04Gaps = []string{" ", "", "\t\n "}
 
 // c04Unterminated: placeholders whose end marker is missing or malformed (no }} follows the ${{),
